@@ -59,6 +59,19 @@ CHECKS = {
         "runtime monitoring: reference-model oracle over entity.permission, exhaustive cell enumeration",
         "3/C04",
     ),
+    "C05": (
+        "exploration",
+        "Runtime monitor over complete FORD runs (forked child): generated programs with unique tracer words per entity x project "
+        "display {public; public,protected; public,private; all; none} x proc_internals x hide_undoc x incl_src, with display/"
+        "proc_internals overrides in file, module, type and procedure metadata; a three-valued selection model (must-show / must-hide / "
+        "either) is compared with (a) where each entity's words occur on all pages (source listings excluded) and in all search records, "
+        "(b) presence/absence of the entity's anchor id on any page, (c) own page existence, (d) links to pages that were not generated.",
+        "Entities rendered as part of another selected entity (binding targets, generic specifics, finalisers, deferred prototypes, "
+        "components of extended types, locals of internal procedures) are 'either' and not judged; display sets contain 'public' or are "
+        "'none'; no submodules/enums/common/namelists in this workload.",
+        "runtime monitoring: reference-model oracle (three-valued selection) over the generated site and search index",
+        "3/C05",
+    ),
     "C06": (
         "exploration",
         "Runtime monitor on the real correlate(): all DAG shapes over <=3 provider modules + a consumer (exhaustive) with seeded "
